@@ -5,12 +5,15 @@ C07 line protocol.  One line = one whole navigation history:
     nav <base> <ref> <ref> ...
   every URL is ten comma-separated fields
     scheme,hasAuthority,user,password,host,v6,port,path,query,fragment
+  (an eleventh field `A` on a reference: the object was parsed without its query / fragment, which were then set
+  through the public API, so no query component was ever parsed)
   texts as hex UTF-8 (`-` = empty, `N` = undefined for scheme / query / fragment), flags 0/1, port decimal (0 = none).
 Output: `<base> <after ref 1> ... N <normalize()> <normalize() twice> <normalize(with_case=False)>`
 (the three normalisations are applied to a fresh copy of the base), where a URL with a host is shown as
 `T<to_text()>` and a URL without a host as `C<scheme>|<user>|<password>|<port>|<path>|<query>|<fragment>`
 (how `to_text()` writes an empty authority belongs to property C06 and is not compared here).
-    tables          prints the generated scheme tables back (checked against the live module)
+    tables          prints the generated scheme tables and the generated `navigate` version flag back (checked
+                    against the live module)
 -/
 namespace C07.Driver
 open BV C07
@@ -37,6 +40,20 @@ def parseURL? (tok : String) : Option URL :=
     let qu ← optText? qu
     let fr ← optText? fr
     pure (URL.ofComponents sc au us pw ho v6 po pa qu fr)
+  | [sc, au, us, pw, ho, v6, po, pa, qu, fr, "A"] => do
+    -- a URL object parsed from the text WITHOUT query and fragment, which were then set through the public API
+    -- (`query_params.add`, `.fragment = ...`): no query component was ever parsed (`_query` stays None)
+    let sc ← optText? sc
+    let au ← flag? au
+    let us ← text? us
+    let pw ← text? pw
+    let ho ← text? ho
+    let v6 ← flag? v6
+    let po ← po.toNat?
+    let pa ← text? pa
+    let qu ← optText? qu
+    let fr ← optText? fr
+    pure { URL.ofComponents sc au us pw ho v6 po pa qu fr with hasQuery := false }
   | _ => none
 
 def showU (u : URL) : String :=
@@ -60,7 +77,8 @@ def handle (line : String) : String :=
   match words line with
   | ["tables"] =>
     "P " ++ ",".intercalate (C07.Gen.schemePorts.map fun p => s!"{p.1}:{p.2}") ++
-    " N " ++ ",".intercalate C07.Gen.noNetlocSchemes
+    " N " ++ ",".intercalate C07.Gen.noNetlocSchemes ++
+    " Q " ++ (if C07.Gen.navHonoursEmptyQuery then "1" else "0")
   | "nav" :: b :: refs =>
     match parseURL? b, parseAll? refs with
     | some base, some dests =>
